@@ -520,7 +520,7 @@ func c18r10(c *Ctx) {
 				okAll := len(errEdges) > 0
 				var pos token.Pos = j.Pos()
 				for _, e := range errEdges {
-					if bad, found := pathAvoidingE(e.To(), nil, isDel, isReturn, nil, nil); found {
+					if bad, found := pathAvoidingE(e.To(), nil, deepMust(isDel, 2), isReturn, nil, nil); found {
 						okAll = false
 						if bad != nil {
 							pos = bad.Pos()
